@@ -40,11 +40,56 @@ theorem msl_op_table_is_identity :
     exact ⟨rfl, rfl, rfl, rfl⟩
   · intro o h; cases o <;> simp [mslOpForm] at h <;> rfl
 
-/-- the Metal literal function has the same arms, in the same order, as the HLSL one (`Gen.HlslGenTables.literalArms`):
-what C01 proves about the tree of a constant holds for the Metal tree as well -/
-theorem msl_literal_arms_same_as_hlsl : mslLiteralArms = literalArms := Lemmas.GenMsl.literal_arms_eq
+/-- the Metal literal function has the same arms, in the same order, as the HLSL one (`Gen.HlslGenTables.literalArms`),
+except for the one row the fix batch made different on purpose: a `Float64` constant — Metal has no `double` — is refused
+with `Err(GenerateError::UnsupportedDouble)` (fix 9824ce3).  Every other row, including the new
+`IntLiteral ↦ Err(IntLiteralOutOfRange)` (fix 6017bad), is the HLSL row: what C01 proves about the tree of a constant holds
+for the Metal tree as well -/
+theorem msl_literal_arms_same_as_hlsl :
+    mslLiteralArms = literalArms.map (fun a => if a.1 = .Float64 then (a.1, a.2.1, .errs "UnsupportedDouble") else a) ∧
+    (∀ k v, k ≠ ConstKind.Float64 → GenMsl.findArm k v = GenHlsl.findArm k v) ∧
+    (∀ v, GenMsl.findArm .Float64 v = some (.errs "UnsupportedDouble")) :=
+  ⟨Lemmas.GenMsl.literal_arms_eq, Lemmas.GenMsl.findArm_eq, Lemmas.GenMsl.findArm_float64⟩
 
+/-- on every modelled constant (none is a double) the two literal functions agree: same tree, same refusal -/
 theorem msl_genLiteral_eq (c : Ir.Const) : GenMsl.genLiteral c = GenHlsl.genLiteral c := Lemmas.GenMsl.genLiteral_eq c
+
+/-- **the Metal `generate_literal` never panics** on a modelled constant (fix 6017bad): a constant is exported, or — exactly
+when it is an `IntLiteral` of magnitude above `u64::MAX` — refused with `Err(GenerateError::IntLiteralOutOfRange)`
+(C01's `literal_never_panics` carried over through `msl_genLiteral_eq`) -/
+theorem msl_literal_never_panics :
+    (∀ c : Ir.Const, (∃ a, GenMsl.genLiteral c = .ok a) ∨ GenMsl.genLiteral c = .error (.diag "IntLiteralOutOfRange")) ∧
+    (∀ v : Int, (v < -GenHlsl.u64Max ∨ GenHlsl.u64Max < v) → GenMsl.genLiteral (.intLit v) = .error (.diag "IntLiteralOutOfRange")) ∧
+    (∀ (c : Ir.Const) m, GenMsl.genLiteral c ≠ .error (.panic m)) := by
+  simp only [Lemmas.GenMsl.genLiteral_eq]
+  have big : ∀ v : Int, (v < -GenHlsl.u64Max ∨ GenHlsl.u64Max < v) → GenHlsl.genLiteral (.intLit v) = .error (.diag "IntLiteralOutOfRange") := by
+    intro v hv
+    have h1 : ¬ (v < 0 ∧ -v ≤ GenHlsl.u64Max) := by simp only [GenHlsl.u64Max] at hv ⊢; omega
+    have h2 : ¬ (0 ≤ v ∧ v ≤ GenHlsl.u64Max) := by simp only [GenHlsl.u64Max] at hv ⊢; omega
+    simp [GenHlsl.genLiteral, Ir.Const.kind, GenHlsl.Const.intValue, Lemmas.GenSem.findArm_intLit_big v h1 h2]
+  have all : ∀ c : Ir.Const, (∃ a, GenHlsl.genLiteral c = .ok a) ∨ GenHlsl.genLiteral c = .error (.diag "IntLiteralOutOfRange") := by
+    intro c
+    cases c with
+    | bool b => left; simp [GenHlsl.genLiteral, Ir.Const.kind, GenHlsl.Const.intValue, Lemmas.GenSem.findArm_bool, GenHlsl.mkLit, Except.map]
+    | float32 x => left; simp [GenHlsl.genLiteral, Ir.Const.kind, GenHlsl.Const.intValue, Lemmas.GenSem.findArm_f32, GenHlsl.mkLit, Except.map]
+    | floatLit x => left; simp [GenHlsl.genLiteral, Ir.Const.kind, GenHlsl.Const.intValue, Lemmas.GenSem.findArm_flit, GenHlsl.mkLit, Except.map]
+    | uint32 v => left; simp [GenHlsl.genLiteral, Ir.Const.kind, GenHlsl.Const.intValue, Lemmas.GenSem.findArm_uint, GenHlsl.mkLit, Except.map]
+    | intLit v =>
+      by_cases hin : -GenHlsl.u64Max ≤ v ∧ v ≤ GenHlsl.u64Max
+      · left
+        by_cases hn : v < 0
+        · simp [GenHlsl.genLiteral, Ir.Const.kind, GenHlsl.Const.intValue, Lemmas.GenSem.findArm_intLit_neg v hn (by omega), GenHlsl.negMagnitude]
+        · simp [GenHlsl.genLiteral, Ir.Const.kind, GenHlsl.Const.intValue, Lemmas.GenSem.findArm_intLit_nonneg v (by omega) hin.2, GenHlsl.mkLit, Except.map]
+      · right; exact big v (by omega)
+    | int32 v =>
+      left
+      by_cases hn : v.toInt < 0
+      · simp [GenHlsl.genLiteral, Ir.Const.kind, GenHlsl.Const.intValue, Lemmas.GenSem.findArm_int32_neg _ hn, GenHlsl.negMagnitude]
+      · simp [GenHlsl.genLiteral, Ir.Const.kind, GenHlsl.Const.intValue, Lemmas.GenSem.findArm_int32_nonneg _ hn, GenHlsl.mkLit, Except.map]
+  refine ⟨all, big, fun c m hm => ?_⟩
+  rcases all c with ⟨a, ha⟩ | hd
+  · rw [ha] at hm; cases hm
+  · rw [hd] at hm; cases hm
 
 /-! ## meaning preservation: expressions
 
